@@ -13,7 +13,7 @@ tag = sys.argv[1]                 # "C05" (first wave) or "C05b" (second wave: /
 pid = tag[:3]
 name = sys.argv[2] if len(sys.argv) > 2 else pid + ("-1" if tag == pid else "-%d" % (ord(tag[3]) - ord("a") + 1))
 src = "/tmp/seed/%s-out" % tag
-wt = "/tmp/evalwt"
+wt = os.environ.get("EVAL_WT", "/tmp/evalwt")
 V = "/verif"
 
 
@@ -30,12 +30,12 @@ st = sh("git -C %s status --short" % wt).stdout
 if not st.strip():
     print("PATCH DID NOT APPLY", r.stderr[-500:])
     sys.exit(2)
-env = dict(os.environ, VERIF_REPO=wt, VERIF_TARGET="/tmp/evalwt-target")
+env = dict(os.environ, VERIF_REPO=wt, VERIF_TARGET=wt + "-target")
 t0 = time.time()
 chk = subprocess.run(["./check", pid, "quick"], cwd=V, env=env, capture_output=True, text=True)
 lines = [l for l in chk.stdout.splitlines() if l.startswith(("VIOLATION", "KNOWN-FINDING")) or "BROKEN" in l or "done:" in l]
 print("\n".join(l[:300] for l in lines))
-seeded_bin = "/tmp/evalwt-target/debug/garden"
+seeded_bin = wt + "-target/debug/garden"
 clean_bin = "/verif/.cache/target/debug/garden"
 d1 = sh("bash %s/demo.sh %s" % (src, seeded_bin), timeout=900)
 d0 = sh("bash %s/demo.sh %s" % (src, clean_bin), timeout=900)
